@@ -327,6 +327,9 @@ def _discharged(repo, cls, f, site, always, depth, seen):
     tn = [t for t in tn if t.id != start.id]
     if cfg.must_pass_after(start, tn):
         return True, "trip() on every path to a normal exit of %s" % f.qualname
+    # tripping just before the write is equally good: no evaluator can run in between inside this activation
+    if tn and not cfg.reaches(cfg.entry, start, avoid=tn):
+        return True, "trip() on every path leading to the write in %s" % f.qualname
     private = f.name.startswith("_") and not (f.name.startswith("__") and f.name.endswith("__")) and f.kind != "setter"
     if not private:
         return False, "%s is public API and can be called directly" % f.qualname
